@@ -33,7 +33,7 @@ ASSUMPTIONS = [
     "the wisdom file is the one the FFT manager reads from the working directory (fftw_wisdom.pkl)",
 ]
 TOLERANCES = {"same key": "bit-identical", "across threads / processes": "1e-12 * max|field| (double)", "single vs double": "1e-5 * max|field|"}
-BUDGET = {"quick": dict(examples=80, shards=1), "thorough": dict(examples=150, shards=4, procs=4)}
+BUDGET = {"quick": dict(examples=120, shards=1), "thorough": dict(examples=300, shards=4, procs=4)}
 STEP_COUNT = {"quick": 25, "thorough": 50}
 
 
